@@ -84,7 +84,10 @@ def run_rle(chk: Check, mr: ModelRun):
                            'decoded': compact.rle_decode(compact.rle_encode(small))})
         dec_inputs.append(ei)
     # decode on arbitrary (not necessarily encoded) ASCII-digit strings
-    dec_inputs += [s for s in cases if all(not c.isdigit() or c in '0123456789' for c in s)]
+    # (decoding arbitrary text can ask for astronomically long runs, e.g. '~a1111111111~': keep counts below 10^4)
+    import re as _re
+    dec_inputs += [s for s in cases if all(not c.isdigit() or c in '0123456789' for c in s)
+                   and not _re.search(r'~[^~]\d{5,}~', s)]
     dec_model = [sx_str(r) for r in mr.ask([f'(rle_decode {sx(s)})' for s in dec_inputs])]
     for s, dm in zip(dec_inputs, dec_model):
         di = compact.rle_decode(s)
